@@ -64,7 +64,6 @@ class Tree:
         self.files = {}  # rel path -> str | bytes
         self.links = {}  # rel path -> target (absolute: prefixed by the root when the tree is written; or relative)
         self.link_is_abs = {}
-        self.has_dir_link = False
 
     def need_dir(self, rel: str):
         self.dirs.add(_norm(rel))
@@ -104,7 +103,6 @@ def spell(tree: Tree, kind: str, from_dir: str, target: str, k: int) -> str:
         link = _norm(os.path.join(from_dir, name))
         tree.links[link] = _norm(os.path.dirname(_norm(target)) or '.')
         tree.link_is_abs[link] = True
-        tree.has_dir_link = False
         return name + '/' + os.path.basename(target)
     raise ValueError(kind)
 
@@ -325,8 +323,8 @@ def _run(sc: Scenario):
 
 def shows_chain(r, sc: Scenario, chain=None) -> bool:
     """The message shows the chain of source lines that leads to the offending one: for every link, in order, a line
-    `FILE, line N` - FILE ends with the name under which the file was referred to and (no symbolic link to a directory
-    being involved) denotes that very file - followed by the source line."""
+    `FILE, line N` - FILE ends with the name under which the file was referred to and denotes that very file (symbolic
+    links followed) - followed by the source line."""
     chain = sc.chain if chain is None else chain
     lines = r['stderr'].split('\n')
     locations = r['locations']
@@ -337,7 +335,7 @@ def shows_chain(r, sc: Scenario, chain=None) -> bool:
             return False
         if os.path.basename(shown) != referred_as:
             return False
-        if not sc.tree.has_dir_link and denoted != _norm(file):
+        if denoted != _norm(file):
             return False
         j = i + 1
         while j < len(lines) and lines[j].strip() == '':
